@@ -109,3 +109,4 @@ Example C16_value_nonvacuous :
   (exists cx, g_pc ex_run16v 0 = PW_ChkTab cx 0) /\ g_pc ex_run16v 1 = PIdle /\ g_todo ex_run16v 1 = [XLoad 7].
 Proof. split; [eexists; vm_compute; reflexivity | vm_compute; split; reflexivity]. Qed.
 Print Assumptions C16_nonvacuous.
+Print Assumptions C16_value_nonvacuous.
